@@ -4,6 +4,8 @@ package main
 
 import (
 	"fmt"
+	"go/token"
+	"go/types"
 	"strings"
 
 	"golang.org/x/tools/go/ssa"
@@ -12,7 +14,7 @@ import (
 func init() {
 	register(&propDef{
 		id:      "C24",
-		explain: "Structural necessary conditions of 'range requests yield exactly the requested bytes or a proper refusal': (E10) on every acyclic path of ParseByteRange (decided in the zone abstract domain, with the post-condition 'ParseUint returns a non-negative value when its error is nil'), every success return satisfies 0 <= startPos <= endPos < contentLength; (R2) in the FS handler a ParseByteRange error leads, on every path, to the reader being closed and a 416 answer; success leads to UpdateByteRange and SetContentRange being called with the parsed positions and to status 206; a failed UpdateByteRange closes the reader; (R3) not-modified and HEAD branches give the reader back (decrement / close) before returning; (R-pool) a pooled file reader is re-armed before it goes back to its pool: every field that UpdateByteRange sets and Read/WriteTo consult is re-assigned by Close on every path. Not decided: the bytes served, compressed variants, date comparison to the second.",
+		explain: "Structural necessary conditions of 'range requests yield exactly the requested bytes or a proper refusal': (E10) on every acyclic path of ParseByteRange (decided in the zone abstract domain, with the post-condition 'ParseUint returns a non-negative value when its error is nil'), every success return satisfies 0 <= startPos <= endPos < contentLength; (R2) in the FS handler a ParseByteRange error leads, on every path, to the reader being closed and a 416 answer; success leads to UpdateByteRange and SetContentRange being called with the parsed positions and to status 206; a failed UpdateByteRange closes the reader; (R3) not-modified and HEAD branches give the reader back (decrement / close) before returning; (R-pool) a pooled file reader is re-armed before it goes back to its pool: every field that UpdateByteRange sets and Read/WriteTo consult is re-assigned by Close on every path; (R-bound) a reader that serves the window [startPos, endPos) of a file through ReadAt never asks for more than the window holds: on every path to every ReadAt call - from the function entry, or from the head of the enclosing loop with the loop variables unconstrained, so the bound has to be re-established in every iteration - the length of the buffer handed over is at most endPos minus the offset handed over (zone domain). Not decided: the bytes served, compressed variants, date comparison to the second.",
 		run:     runC24,
 	})
 }
@@ -245,4 +247,94 @@ func runC24(p *Prog, r *Report) {
 		}
 	}
 	r.Floor("R-pool", "range-state fields of pooled readers", n, 3)
+	rangeBoundedReads(p, r)
+}
+
+// rangeBoundedReads (R-bound): see the explanation text. The obligation
+// len(buf) <= endPos - off has three variables, which a zone cannot express;
+// it is decided through the value T = endPos - off that the code itself
+// computes: some subtraction whose minuend is the window end and whose
+// subtrahend is the very offset given to ReadAt must bound len(buf) at the call.
+func rangeBoundedReads(p *Prog, r *Report) {
+	n := 0
+	for _, fn := range p.funcsIn("") {
+		if len(fn.Params) == 0 {
+			continue
+		}
+		// receiver types that carry a window end
+		hasEnd := false
+		if st := structOf(fn.Params[0].Type()); st != nil {
+			for i := 0; i < st.NumFields(); i++ {
+				if st.Field(i).Name() == "endPos" {
+					hasEnd = true
+				}
+			}
+		}
+		if !hasEnd {
+			continue
+		}
+		for _, b := range fn.Blocks {
+			for _, in := range b.Instrs {
+				c, ok := in.(*ssa.Call)
+				if !ok || !c.Call.IsInvoke() || c.Call.Method.Name() != "ReadAt" || len(c.Call.Args) != 2 {
+					continue
+				}
+				n++
+				buf, off := c.Call.Args[0], c.Call.Args[1]
+				for {
+					if cv, ok := off.(*ssa.Convert); ok {
+						off = cv.X
+						continue
+					}
+					break
+				}
+				var start *ssa.BasicBlock
+				if h := loopHeaderOf(b); h != nil {
+					start = h
+				}
+				res := zoneWalkFrom(p, fn, start, nil, nil, nil, nil, func(i ssa.Instruction, z *zone) (bool, bool, string) {
+					if i != ssa.Instruction(c) {
+						return false, true, ""
+					}
+					l := z.node(z.lenOf(buf))
+					offN, offO := z.term(off)
+					for _, bb := range fn.Blocks {
+						for _, i2 := range bb.Instrs {
+							sub, ok := i2.(*ssa.BinOp)
+							if !ok || sub.Op != token.SUB {
+								continue
+							}
+							if _, fv := loadedField(sub.X); fv == nil || fv.Name() != "endPos" {
+								continue
+							}
+							yn, yo := z.term(sub.Y)
+							if yn != offN || yo != offO {
+								continue
+							}
+							if t, has := z.idx[sub]; has && z.entails(l, 0, t, 0, 0) {
+								return true, true, ""
+							}
+						}
+					}
+					return true, false, "the buffer handed to ReadAt is not shown to be at most endPos - offset long on this path"
+				})
+				name := fmt.Sprintf("%s: the buffer given to ReadAt is never longer than what is left of the window [startPos, endPos)", funcName(fn))
+				if res.undecided != "" {
+					r.Undecided("R-bound", name, res.undecided)
+					continue
+				}
+				r.Check("R-bound", name, res.bad == 0 && res.successReturns > 0, p.Pos(c.Pos()),
+					fmt.Sprintf("%s (%d of %d paths to the call): the read runs past the end of the requested range, so a 206 response carries more bytes than its Content-Range announces", res.detail, res.bad, res.successReturns), res.witness...)
+			}
+		}
+	}
+	r.Floor("R-bound", "ReadAt calls in window readers", n, 2)
+}
+
+func structOf(t types.Type) *types.Struct {
+	if pt, ok := t.Underlying().(*types.Pointer); ok {
+		t = pt.Elem()
+	}
+	st, _ := t.Underlying().(*types.Struct)
+	return st
 }
